@@ -14,6 +14,7 @@ mod c12;
 mod c13;
 mod c14;
 mod c15;
+mod c16;
 mod c17;
 mod c18;
 mod decoders;
@@ -58,6 +59,7 @@ fn main() {
         ("berchild", "C13") => c13::child(&a),
         ("gen", "C14") => c14::generate(&a),
         ("gen", "C15") => c15::generate(&a),
+        ("gen", "C16") => c16::generate(&a),
         ("gen", "C17") => c17::generate(&a),
         ("replay", "C17") => c17::replay(&a),
         _ => {
